@@ -163,7 +163,7 @@ def task_wide(t):
         b = sweep.Builder(bdd, U)
         fs = U.all_functions(names)
         for fu in fs:
-            if focus is not None and [list(lv), fu] != list(focus):
+            if focus is not None and sweep.norm([lv, fu]) != sweep.norm(focus):
                 continue
             sup = U.support(fu)
             if len(sup) < 1:
